@@ -59,6 +59,15 @@ func VString(v *ast.Value) string { panic("ghost") }
 //@ modifies fresh
 //@ end
 
+//@ define idField(f *ast.FieldDefinition) bool = f.Name == "id" && len(f.Arguments) == 0 && TName(f.Type) == "ID" && f.Type.NonNull
+
+//@ func isIDField
+//@ props C03 C05
+//@ requires f != nil
+//@ ensures[spec] result == idField(f)
+//@ modifies fresh
+//@ end
+
 //@ func isIDType
 //@ props C04
 //@ requires t != nil
@@ -235,19 +244,27 @@ func VString(v *ast.Value) string { panic("ghost") }
 //@ props C05 C03
 //@ returns res, err
 //@ requires a != nil && b != nil
-//@ assumes uniqueNames(a.Fields)
+//@ assumes[unique] uniqueNames(a.Fields)
 //@ ensures[type-conflict-rejected] err == nil && a.Name != "Query" ==> forall(j, 0, len(b.Fields), !hasprefix(b.Fields[j].Name, "__") ==> forall(i, 0, len(a.Fields), a.Fields[i].Name == b.Fields[j].Name ==> sameSig(a.Fields[i], b.Fields[j]))) @using checked, all @props C05
+//@ ensures[node-overlap-rejected] err == nil && a.Name != "Query" && implementsNode(a) ==> forall(j, 0, len(b.Fields), !hasprefix(b.Fields[j].Name, "__") && !idField(b.Fields[j]) ==> forall(i, 0, len(a.Fields), a.Fields[i].Name != b.Fields[j].Name)) @using ovl, some, all, spec @props C05
+//@ ensures[a-kept] err == nil && a.Name != "Query" ==> len(res) >= len(a.Fields) && forall(i, 0, len(a.Fields), res[i].Name == a.Fields[i].Name) @using prefix, ukeep @props C03
+//@ ensures[b-kept] err == nil && a.Name != "Query" ==> len(res) == len(a.Fields) || forall(j, 0, len(b.Fields), !hasprefix(b.Fields[j].Name, "__") ==> exists(m, 0, len(res), res[m].Name == b.Fields[j].Name)) @using b-kept, all, ukeep, own @props C03
 //@ modifies-assumed fresh
 //@ loop 0 modifies fresh
-//@ loop 0 invariant[own] cap(result) == 0 || freshloop(result)
+//@ loop 0 invariant[own] base(result) == 0 || freshloop(result)
 //@ loop 0 invariant[copy] a.Name != "Query" ==> len(result) == it && forall(i, 0, it, fresh(result[i]) && copyOf(result[i], a.Fields[i])) @using copy, own
 //@ loop 1 modifies fresh
-//@ loop 1 invariant[own] cap(unchnagedResult) == 0 || freshloop(unchnagedResult)
+//@ loop 1 invariant[own] base(unchnagedResult) == 0 || freshloop(unchnagedResult)
+//@ loop 1 invariant[ucopy] len(unchnagedResult) == it && forall(i, 0, it, unchnagedResult[i] != nil && unchnagedResult[i].Name == result[i].Name) @using ucopy, own
 //@ loop 2 invariant[keys] isOverlappinggMap != nil && forallT(i, int, has(isOverlappinggMap, i) ==> 0 <= i && i < it)
 //@ loop 2 modifies result[*], isOverlappinggMap[*], fresh
-//@ loop 2 invariant[own] (cap(result) == 0 || fresh(result)) && (base(result) == base(atloop(result)) && off(result) == off(atloop(result)) || freshloop(result)) && fresh(mf) && base(mf) != base(result)
+//@ loop 2 invariant[own] (base(result) == 0 || fresh(result)) && (base(result) == base(atloop(result)) && off(result) == off(atloop(result)) || freshloop(result)) && fresh(mf) && base(mf) != base(result) && base(mf) != base(atloop(result))
 //@ loop 2 invariant[prefix] a.Name != "Query" ==> len(result) >= len(a.Fields) && forall(i, 0, len(a.Fields), copyOf(result[i], a.Fields[i])) @using prefix, own
-//@ loop 2 invariant[checked] a.Name != "Query" ==> forall(j, 0, it, forall(i, 0, len(a.Fields), a.Fields[i].Name == mf[j].Name ==> sameSig(a.Fields[i], mf[j]))) @using checked, prefix, spec, own
+//@ loop 2 invariant[ukeep] a.Name != "Query" ==> len(unchnagedResult) == len(a.Fields) && (base(unchnagedResult) == 0 || (fresh(unchnagedResult) && base(unchnagedResult) != base(result) && base(unchnagedResult) != base(mf))) && forall(i, 0, len(a.Fields), unchnagedResult[i] != nil && unchnagedResult[i].Name == a.Fields[i].Name) @using ukeep, own, ucopy, prefix
+//@ loop 2 invariant[b-kept] forall(j, 0, it, exists(m, 0, len(result), result[m].Name == mf[j].Name)) @using b-kept, own
+//@ loop 2 invariant[ovl] a.Name != "Query" ==> forall(j, 0, it, forall(i, 0, len(a.Fields), a.Fields[i].Name == mf[j].Name && !idField(mf[j]) ==> has(isOverlappinggMap, j) && isOverlappinggMap[j])) @using ovl, prefix, spec, own, keys
+//@ loop 3 invariant[some] forallT(k, int, seen(k) && isOverlappinggMap[k] ==> isSomeOverlappingg)
+//@ loop 2 invariant[checked] a.Name != "Query" ==> forall(j, 0, it, forall(i, 0, len(a.Fields), a.Fields[i].Name == mf[j].Name ==> sameSig(a.Fields[i], mf[j]))) @using checked, prefix, spec, own, unique
 //@ end
 
 //@ func mergeCustomObjects
